@@ -50,6 +50,7 @@ type Program struct {
 	Templates  map[string]string      `json:"templates"`
 	Syms       map[string][]SymResult `json:"syms"`
 	Inputs     []string               `json:"inputs"`
+	Valid      bool                   `json:"valid,omitempty"` // the application adds the input format customFormat to its engines
 	code       map[string][]byte
 }
 
